@@ -630,6 +630,84 @@ Proof.
   - intro H. apply roundtrip_ms_iff in H as [H _]. discriminate.
 Qed.
 
+(* ================================================================ 2h. the import does not depend on the order of the genesis lists *)
+From Coq Require Import Permutation.
+
+Lemma zmax_list_perm : forall l l', Permutation l l' -> zmax_list l = zmax_list l'.
+Proof.
+  induction 1 as [|x l l' _ IH|x y l|l l' l'' _ IH1 _ IH2]; [reflexivity| | |congruence].
+  - change (zmax_list (x :: l)) with (Z.max x (zmax_list l)). change (zmax_list (x :: l')) with (Z.max x (zmax_list l')). rewrite IH. reflexivity.
+  - change (Z.max y (Z.max x (zmax_list l)) = Z.max x (Z.max y (zmax_list l))). lia.
+Qed.
+
+(* multistaking: for ANY permutation of the pool and undelegation lists the counters are the same and the
+   same records are stored *)
+Lemma import_ms_order_independent : forall ctr ps ps' us us', Permutation ps ps' -> Permutation us us' ->
+  last_pool (import_ms ctr (ps', us')) = last_pool (import_ms ctr (ps, us)) /\
+  last_undel (import_ms ctr (ps', us')) = last_undel (import_ms ctr (ps, us)) /\
+  Permutation (pools (import_ms ctr (ps, us))) (pools (import_ms ctr (ps', us'))) /\
+  Permutation (undels (import_ms ctr (ps, us))) (undels (import_ms ctr (ps', us'))).
+Proof.
+  intros ctr ps ps' us us' Hp Hu. unfold import_ms; cbn [last_pool last_undel pools undels fst snd].
+  destruct ctr; repeat split; auto; apply zmax_list_perm; apply Permutation_map; apply Permutation_sym; assumption.
+Qed.
+
+(* the last-entry variant depends on the order, and on the unsorted list the next undelegation overwrites
+   an imported one (account 30 destroys the pending undelegation of account 10) *)
+Lemma import_ms_lastentry_order_dependent :
+  exists ps us us', Permutation us us' /\
+    last_undel (import_ms_lastentry (ps, us)) <> last_undel (import_ms_lastentry (ps, us')) /\
+    zlookup 2 (undels (import_ms_lastentry (ps, us'))) = Some 10 /\
+    zlookup 2 (undels (undelegate (import_ms_lastentry (ps, us')) 30)) = Some 30 /\
+    zlookup 2 (undels (undelegate (import_ms true (ps, us')) 30)) = Some 10.
+Proof.
+  exists [(1, 100)], [(1, 20); (2, 10)], [(2, 10); (1, 20)].
+  split; [apply perm_swap|]. repeat split; try (vm_compute; reflexivity). vm_compute. discriminate.
+Qed.
+
+(* gov proposals: the rebuilt queues hold the same ids whatever the order of the proposal list *)
+Lemma import_props_order_independent : forall rebuild now ps ps' n id, Permutation ps ps' ->
+  (In id (active_q (import_props rebuild now (ps', n))) <-> In id (active_q (import_props rebuild now (ps, n)))) /\
+  (In id (enact_q (import_props rebuild now (ps', n))) <-> In id (enact_q (import_props rebuild now (ps, n)))) /\
+  Permutation (proposals (import_props rebuild now (ps, n))) (proposals (import_props rebuild now (ps', n))).
+Proof.
+  intros rebuild now ps ps' n id Hp. unfold import_props; cbn [fst snd]. destruct rebuild; cbn [active_q enact_q proposals]; [|tauto].
+  assert (Hf : forall f, In id (map p_id (filter f ps')) <-> In id (map p_id (filter f ps))).
+  { intro f. rewrite !in_map_iff. split; intros [p [E H]]; exists p; (split; [assumption|]); apply filter_In in H as [Hin Hf];
+      apply filter_In; (split; [|assumption]); [eapply Permutation_in; [apply Permutation_sym|]; eassumption|eapply Permutation_in; eassumption]. }
+  split; [apply Hf|]. split; [apply Hf|assumption].
+Qed.
+
+(* gov roles: permuting the role list and the (key-unique) permission list permutes the registry and
+   leaves every role's permissions the same *)
+Lemma lookup_perms_none : forall l id, lookup_perms id l = None -> ~ In id (map fst l).
+Proof.
+  induction l as [|[i p] l IH]; cbn; intros id H; [tauto|].
+  destruct (Z.eqb_spec i id) as [->|Hne]; [discriminate|]. intros [E|Hin]; [congruence|]. exact (IH _ H Hin).
+Qed.
+Lemma lookup_perms_perm : forall l l' id, NoDup (map fst l) -> Permutation l l' -> lookup_perms id l' = lookup_perms id l.
+Proof.
+  intros l l' id Hn Hp.
+  assert (Hn' : NoDup (map fst l')) by (eapply Permutation_NoDup; [apply Permutation_map; eassumption|assumption]).
+  destruct (lookup_perms id l) as [p|] eqn:E.
+  - apply lookup_perms_in; [assumption|]. eapply Permutation_in; [eassumption|]. apply lookup_perms_some_in; assumption.
+  - destruct (lookup_perms id l') as [q|] eqn:E'; [|reflexivity]. exfalso.
+    apply lookup_perms_some_in in E'. apply (lookup_perms_none _ _ E).
+    change id with (fst (id, q)). apply in_map. eapply Permutation_in; [apply Permutation_sym; eassumption|assumption].
+Qed.
+Lemma import_roles_order_independent : forall blk rs rs' pm pm' n, NoDup (map fst pm) ->
+  Permutation rs rs' -> Permutation pm pm' ->
+  Permutation (registry (import_roles blk (mkRolesGen rs pm n))) (registry (import_roles blk (mkRolesGen rs' pm' n))) /\
+  (forall id, lookup_perms id pm' = lookup_perms id pm).
+Proof.
+  intros blk rs rs' pm pm' n Hn Hr Hp. split; [|intro id; apply lookup_perms_perm; assumption].
+  unfold import_roles; cbn [registry g_roles g_perms].
+  rewrite (map_ext (fun id => (id, match lookup_perms id pm' with Some p => import_perms blk p | None => empty_perms end))
+                   (fun id => (id, match lookup_perms id pm with Some p => import_perms blk p | None => empty_perms end))).
+  - apply Permutation_map. assumption.
+  - intro id. rewrite (lookup_perms_perm pm pm' id Hn Hp). reflexivity.
+Qed.
+
 (* ================================================================ 2f. identity registrar *)
 
 Lemma upsert_fresh : forall l k v, ~ In k (map fst l) -> upsert k v l = (l ++ [(k, v)])%list.
@@ -738,7 +816,7 @@ Qed.
 
 Definition snap0 : snap := mkSnap [] [] [] 1 [] [] [] 1 (mkMs 0 0 [] [] 0 0) [] [] 0 0 0 [] 0.
 Definition model_case (pop : list (string * string)) : c12_case :=
-  mkCase RImported false pop (predicted_diffs pop) [] [] [] snap0 snap0.
+  mkCase RImported false pop (predicted_diffs pop) [] [] [] [] snap0 snap0.
 
 Lemma predicted_diffs_nil : forall pop,
   (forall pc, In pc pop -> match status_of (fst pc) (snd pc) with SLost => False | _ => True end) -> predicted_diffs pop = [].
@@ -758,7 +836,7 @@ Proof. intros pop H. unfold case_clauses, model_case; cbn. rewrite predicted_dif
 Lemma chk_flags_lost : forall pop store name, In (store, name) pop -> status_of store name = SLost ->
   In (diff_clause ("lost"%string, store, name)) (case_clauses (model_case pop)).
 Proof.
-  intros pop store name Hin Hs. unfold case_clauses, model_case; cbn [cs_status cs_version_panic cs_diffs cs_export2 cs_probes cs_sched_probes].
+  intros pop store name Hin Hs. unfold case_clauses, model_case; cbn [cs_status cs_version_panic cs_diffs cs_export2 cs_probes cs_sched_probes cs_order].
   apply in_or_app; right. apply in_or_app; left.
   apply in_map. unfold predicted_diffs. apply in_flat_map. exists (store, name). split; [assumption|].
   cbn. rewrite Hs. left; reflexivity.
